@@ -8,6 +8,7 @@ import re
 from vlib.core import AnalysisError, Report
 from vlib.grammar import GrammarModel
 from vlib.nodemodel import NodeModel
+from vlib.match import X, calls, closure, deref, facts, has_call, nodes
 from vlib.srcindex import ClassInfo, FuncInfo, SourceIndex, attr_chain, const_str, unparse, walk_no_nested
 
 EXPLANATION = (
@@ -51,8 +52,18 @@ def rule_a(rep: Report, idx: SourceIndex) -> None:
 			parts.append(v.value if isinstance(v, ast.Constant) else '{' + unparse(v.value) + '}')
 	r.check(parts == ['{entry_tag}', '[', '{index}', ']'], 'writer-format', ident.where, f'EntryPath.identify writes {parts}; readers expect tag[index]')
 	bt = pm.func('EntryPath.__break_tag')
-	src = unparse(bt.node)
-	r.check("elem.endswith(']')" in src and "elem.split('[')" in src and 'int(after[:-1])' in src and '(elem, -1)' in src, 'reader-break-tag', bt.where, f'__break_tag no longer parses tag[index] (plain tag -> index -1): {src[:200]}')
+	btx = closure(bt)
+	closes = [c for c in calls(btx, 'endswith') if c.args and const_str(c.args[0]) == ']']
+	opens = [c for c in calls(btx, ('split', 'partition', 'rpartition', 'index', 'find', 'rfind', 'rsplit')) if c.args and const_str(c.args[0]) == '[']
+	ints = calls(btx, 'int')
+	plain = [n for n in nodes(btx, ast.Tuple) if len(n.elts) == 2 and isinstance(n.elts[1], (ast.Constant, ast.UnaryOp)) and isinstance(n.ctx, ast.Load)]
+	if closes and opens and ints and plain:
+		r.check(all(unparse(n.elts[1]) == '-1' for n in plain), 'reader-break-tag', bt.where, f'__break_tag must yield index -1 for a plain tag (the readers test `index != -1`): returns {[unparse(n) for n in plain]}', unparse(plain[0]))
+		for c in ints:
+			inner = unparse(c.args[0]) if c.args else ''
+			r.check('[:-1]' in inner or "rstrip(']')" in inner or "strip(']')" in inner or "removesuffix(']')" in inner or (c.args and isinstance(c.args[0], ast.Name)), 'reader-break-tag:index-text', bt.where, f'the index text of tag[index] must exclude the closing bracket: int({inner})', unparse(c))
+	else:
+		r.skip('reader-break-tag', bt.where, '__break_tag no longer has the endswith("]") / split("[") / int(...) / (elem, -1) shape')
 	di = pm.func('EntryPath.de_identify')
 	pat = next((const_str(n.args[0]) for n in ast.walk(di.node) if isinstance(n, ast.Call) and attr_chain(n.func) == 're.sub' and n.args), None)
 	ok = False
@@ -63,15 +74,59 @@ def rule_a(rep: Report, idx: SourceIndex) -> None:
 			ok = False
 	r.check(ok, 'reader-de-identify', di.where, f'de_identify pattern {pat!r} does not strip exactly the [index] suffixes the writer produces')
 	fp = fm.func('ASTFinder.full_pathfy')
-	fsrc = unparse(fp.node)
-	r.check('indivisual = len(tag_of_indexs[entry_tag]) == 1' in fsrc and 'EntryPath.join(path, entry_tag) if indivisual else EntryPath.identify(path, entry_tag, index)' in fsrc and 'for index, in_entry in enumerate(children)' in fsrc,
-		'writer-unique-plain', fp.where, 'full_pathfy no longer writes the plain tag exactly when the tag is unique among siblings and tag[positional index] otherwise')
+	for fn in closure(fp):
+		joins = [c for c in calls(fn, 'EntryPath.join')]
+		idents = [c for c in calls(fn, 'EntryPath.identify')]
+		if not joins or not idents:
+			continue
+		uniq = lambda c: [(t, p) for t, p in facts(fn, c) if re.search(r'len\(.*\) (==|!=|>|<=) 1$', t)]
+		fj, fi = uniq(joins[0]), uniq(idents[0])
+		truth = lambda t, p: p if t.endswith(('== 1', '<= 1')) else not p
+		if fj and fi:
+			r.check(all(truth(t, p) for t, p in fj) and not any(truth(t, p) for t, p in fi), 'writer-unique-plain', fp.where, f'full_pathfy must write the plain tag exactly when the tag is unique among the siblings and tag[index] otherwise (plain under {fj}, indexed under {fi})', unparse(joins[0]))
+			r.check(all('.name' in t or 'tag' in t for t, _ in fj), 'writer-unique-plain:by-tag', fp.where, f'the sibling count must be that of the entry\'s own tag: {fj}')
+		elif facts(fn, joins[0]) == facts(fn, idents[0]):
+			r.violate('writer-unique-plain', fp.where, 'full_pathfy no longer chooses between the plain tag and tag[index]', unparse(joins[0]))
+		else:
+			r.skip('writer-unique-plain', fp.where, 'the plain/indexed choice is no longer a `len(siblings with this tag) == 1` test')
+		# the written index is the position among all children
+		ia = idents[0].args[2] if len(idents[0].args) >= 3 else None
+		enum_targets = [n.target.elts[0].id for n in nodes(fn, (ast.For, ast.comprehension)) if isinstance(n.target, ast.Tuple) and n.target.elts and isinstance(n.target.elts[0], ast.Name) and isinstance(deref(fn, n.iter), ast.Call) and unparse(deref(fn, n.iter).func) == 'enumerate' and len(deref(fn, n.iter).args) == 1]
+		if ia is not None and enum_targets:
+			r.check(isinstance(ia, ast.Name) and ia.id in enum_targets, 'writer-positional-index', fp.where, f'the index written by EntryPath.identify must be the position among all children (enumerate index): `{unparse(ia)}`', unparse(idents[0]))
+		else:
+			r.skip('writer-positional-index', fp.where, 'no enumerate() loop feeding EntryPath.identify')
+		break
+	else:
+		r.skip('writer-unique-plain', fp.where, 'full_pathfy no longer calls EntryPath.join and EntryPath.identify')
 	al = fm.func('ASTFinder.__aligned_children')
-	r.check('if tag == in_tag' in unparse(al.node) and 'enumerate(children)' in unparse(al.node), 'writer-sibling-count', al.where, '__aligned_children no longer groups sibling positions by tag')
+	alx = closure(al)
+	if has_call(alx, 'enumerate') and any(isinstance(n, ast.Attribute) and n.attr == 'name' for n in nodes(alx)):
+		r.ok('writer-sibling-count', al.where)
+	else:
+		r.skip('writer-sibling-count', al.where, '__aligned_children no longer groups enumerate() positions by entry name')
 	pl = fm.func('ASTFinder.__pluck')
-	psrc = unparse(pl.node)
-	r.check('tag, index = path.first' in psrc and 'if index != -1' in psrc and 'children[index]' in psrc and 'index >= 0 and index < len(children)' in psrc, 'reader-positional', pl.where, '__pluck no longer addresses an indexed element positionally within bounds')
-	r.check('if tag == in_entry.name' in psrc, 'reader-by-tag', pl.where, '__pluck no longer resolves a plain element by tag')
+	plx = closure(pl, 1)
+	first = [n for n in nodes(plx, ast.Assign) if isinstance(n.targets[0], ast.Tuple) and len(n.targets[0].elts) == 2 and unparse(n.value).endswith('.first')]
+	if not first:
+		r.skip('reader-positional', pl.where, '__pluck no longer unpacks (tag, index) = path.first')
+		r.skip('reader-by-tag', pl.where, '__pluck no longer unpacks (tag, index) = path.first')
+	else:
+		tagv, idxv = (unparse(e) for e in first[0].targets[0].elts)
+		subs = [n for fn in plx for n in nodes(fn, ast.Subscript) if unparse(n.value).endswith('children') and isinstance(n.ctx, ast.Load) and idxv in {x.id for x in ast.walk(n.slice) if isinstance(x, ast.Name)}]
+		if not subs:
+			r.skip('reader-positional', pl.where, 'no children[index] read in __pluck')
+		for n in subs:
+			fs = [(t, p) for t, p in facts(plx[0], n)]
+			indexed = any((t == f'{idxv} != -1' and p) or (t == f'{idxv} == -1' and not p) or (t in (f'{idxv} >= 0', f'{idxv} > -1') and p) or (t.startswith(f'0 <= {idxv}') and p) for t, p in fs)
+			r.check(unparse(n.slice) == idxv and indexed, 'reader-positional', pl.where, f'an indexed element must address children[{idxv}] (the writer\'s enumerate position) under `{idxv} != -1`: reads `{unparse(n)}` under {fs}', unparse(n))
+		filt = [n for fn in plx for n in nodes(fn, ast.comprehension) if n.ifs and any(isinstance(x, ast.Attribute) and x.attr == 'name' for i in n.ifs for x in ast.walk(i))]
+		if not filt:
+			r.skip('reader-by-tag', pl.where, 'no child filter on the entry name in __pluck')
+		for g in filt:
+			t = g.ifs[0]
+			eq = isinstance(t, ast.Compare) and len(t.ops) == 1 and isinstance(t.ops[0], ast.Eq) and tagv in (unparse(t.left), unparse(t.comparators[0])) and len(g.ifs) == 1
+			r.check(eq, 'reader-by-tag', pl.where, f'a plain element must select the children whose name equals the tag: filter is `{unparse(t)}`', unparse(t))
 	# separator
 	join = dm.func('DSN.join')
 	elements = dm.func('DSN.elements')
@@ -196,11 +251,48 @@ def rule_c(rep: Report, idx: SourceIndex) -> None:
 	rep.consulted(RESOLVER)
 	f = m.func('NodeResolver.resolve')
 	src = unparse(f.node)
-	r.check('if full_path in self.__insts' in src and 'self.__insts[full_path] = ' in src, 'cache-key', f.where, 'the instance cache is no longer keyed by full path alone')
-	loop = next((n for n in walk_no_nested(f.node) if isinstance(n, ast.For)), None)
-	ok = loop is not None and 'ctor.match_feature(dummy)' in unparse(loop) and any(isinstance(s, ast.Return) for s in ast.walk(loop))
-	r.check(ok, 'first-accepting', f.where, 'resolve no longer returns at the first candidate class whose match_feature accepts the dummy node')
-	r.check('self.__invoker(Node, full_path)' in src, 'dummy-is-plain-node', f.where, 'match_feature is no longer evaluated on a plain Node(full_path) dummy (a typed dummy would make the outcome depend on a previous resolution)')
+	fx = X(f)
+	params = [a.arg for a in f.node.args.args]
+	keys = [n.slice for n in nodes(fx, ast.Subscript) if unparse(n.value).endswith('__insts')] + [n.left for n in nodes(fx, ast.Compare) if len(n.ops) == 1 and isinstance(n.ops[0], (ast.In, ast.NotIn)) and unparse(n.comparators[0]).endswith('__insts')]
+	if not keys:
+		r.skip('cache-key', f.where, 'NodeResolver.resolve no longer uses the __insts cache')
+	else:
+		r.check(all(isinstance(k, ast.Name) and k.id == 'full_path' and k.id in params for k in keys), 'cache-key', f.where, f'the instance cache must be keyed by the full path alone: keys {[unparse(k) for k in keys]}')
+	verdict, msg = first_accepting(idx)
+	if verdict == 'skip':
+		r.skip('first-accepting', f.where, msg)
+	else:
+		r.check(verdict == 'ok', 'first-accepting', f.where, msg)
+	mf = calls(fx, 'match_feature')
+	dummies = [deref(fx, c.args[0]) for c in mf if c.args]
+	dummies = [d for d in dummies if isinstance(d, ast.Call) and unparse(d.func).endswith('__invoker') and d.args]
+	if not dummies:
+		r.skip('dummy-is-plain-node', f.where, 'match_feature is no longer called on an __invoker(...) dummy')
+	for d in dummies:
+		r.check(unparse(d.args[0]) == 'Node' and len(d.args) == 2 and unparse(d.args[1]) == 'full_path', 'dummy-is-plain-node', f.where, f'match_feature must be evaluated on a plain Node(full_path) dummy (a typed dummy would make the outcome depend on a previous resolution): `{unparse(d)}`', unparse(d))
+
+
+def first_accepting(idx: SourceIndex) -> tuple[str, str]:
+	"""NodeResolver.resolve takes the first candidate class, in registration order, whose match_feature accepts"""
+	f = idx.mod(RESOLVER).func('NodeResolver.resolve')
+	fx = X(f)
+	loops = [n for n in nodes(fx, ast.For) if has_call(n, 'match_feature')]
+	if not loops:
+		return 'skip', 'NodeResolver.resolve no longer loops over candidate classes calling match_feature'
+	loop = loops[0]
+	it = deref(fx, loop.iter)
+	if isinstance(it, ast.Call) and unparse(it.func) in ('reversed', 'sorted', 'set'):
+		return 'violate', f'candidate classes must be tried in registration order: iterates `{unparse(it)}`'
+	if isinstance(it, ast.Subscript) and isinstance(it.slice, ast.Slice):
+		return 'violate', f'candidate classes must all be tried in registration order: iterates `{unparse(it)}`'
+	exits = [n for n in ast.walk(loop) if isinstance(n, (ast.Return, ast.Break))]
+	if not exits:
+		return 'violate', 'the candidate loop no longer stops at the first accepting class (a later class would win)'
+	for e in exits:
+		fs = facts(fx, e)
+		if not any('match_feature' in t and p for t, p in fs):
+			return 'violate', f'the candidate loop exits at line {e.lineno} without match_feature having accepted (conditions: {fs})'
+	return 'ok', ''
 
 
 def rule_d(rep: Report, idx: SourceIndex) -> None:
